@@ -110,11 +110,13 @@ func observe(ret []byte, vmErr string, err error) observation {
 }
 
 type probeCall struct {
-	C    cand
-	Sel  string
-	Data []byte
-	Exp  expectation
-	Obs  map[string]observation
+	C        cand
+	Sel      string
+	Data     []byte
+	Exp      expectation
+	Obs      map[string]observation
+	ExpHist  *expectation // expectation at the historical height (registry scan of that height)
+	HistScan *scan
 }
 
 func selData(sel string) []byte {
@@ -227,6 +229,20 @@ func (w *world) probeRound(why string, only *common.Address) {
 			mk(cd, vh.Pick(w.r, []string{"symbol", "decimals", "prefix", "prefix"}))
 		}
 	}
+	// historical pass first (height 2: right after genesis, before any dynamic deployment of this world)
+	if only == nil && c.Height > 3 {
+		if hctx, herr := c.App.CreateQueryContext(2, false); herr == nil {
+			hs := scanAt(c, hctx)
+			for _, pc := range calls {
+				e := expect(hs, pc.C.Addr, pc.Sel)
+				pc.ExpHist, pc.HistScan = &e, hs
+				pc.Obs["query-historical"] = w.ethCall(hctx, w.prober.Addr, pc.C.Addr, pc.Data)
+			}
+			w.run.Count("probe_historical_passes", 1)
+		} else {
+			w.run.Count("probe_historical_context_unavailable", 1)
+		}
+	}
 	price := new(big.Int).Mul(c.BaseFee(), big.NewInt(2))
 	if price.Sign() == 0 {
 		price = big.NewInt(1)
@@ -317,7 +333,9 @@ func (w *world) ethCall(ctx sdk.Context, from, to common.Address, data []byte) (
 	return observe(res.Ret, res.VmError, nil)
 }
 
-var modes = []string{"simulate", "check", "query", "deliver"}
+// "query-historical" = EthCall on the state of an old height, issued BEFORE the other modes of the same round: the
+// answer must follow the registry of THAT height, and serving it must not change what the later modes see
+var modes = []string{"query-historical", "simulate", "check", "query", "deliver"}
 
 // judge compares the four observations of one call with the expectation.
 func (w *world) judge(pc *probeCall, s *scan, why string) {
@@ -326,17 +344,24 @@ func (w *world) judge(pc *probeCall, s *scan, why string) {
 		if !ok {
 			continue
 		}
+		exp, s := pc.Exp, s
+		if mode == "query-historical" {
+			if pc.ExpHist == nil {
+				continue
+			}
+			exp, s = *pc.ExpHist, pc.HistScan
+		}
 		w.run.Eval(1)
 		w.run.Count("probe_obs_mode_"+mode, 1)
 		switch {
-		case pc.Exp.Target == "unregistered":
+		case exp.Target == "unregistered":
 			w.run.Count("probe_obs_unregistered", 1)
-		case pc.Exp.Class == "no-data":
+		case exp.Class == "no-data":
 			w.run.Count("disabled_probe_obs", 1)
 		default:
 			w.run.Count("probe_obs_registered", 1)
 		}
-		tclass := pc.Exp.Target
+		tclass := exp.Target
 		if tclass == "unregistered" {
 			tclass += ":" + pc.C.Why
 		}
@@ -349,11 +374,11 @@ func (w *world) judge(pc *probeCall, s *scan, why string) {
 		}
 		if mode == "check" {
 			// CheckTx runs the ante chain only: a call to a registered, enabled contract must be admitted
-			if pc.Exp.Target != "unregistered" && pc.Exp.Class != "no-data" && ob.Class != "accepted" {
+			if exp.Target != "unregistered" && exp.Class != "no-data" && ob.Class != "accepted" {
 				sig = "registered-contract-not-callable:" + typ + ":check"
 			}
 		} else {
-			switch pc.Exp.Class {
+			switch exp.Class {
 			case "empty": // unregistered: behaves like an account without code
 				switch ob.Class {
 				case "empty":
@@ -368,7 +393,7 @@ func (w *world) judge(pc *probeCall, s *scan, why string) {
 				}
 			case "data":
 				switch {
-				case ob.Class == "data" && bytes.Equal(common.FromHex(ob.Ret), pc.Exp.Data):
+				case ob.Class == "data" && bytes.Equal(common.FromHex(ob.Ret), exp.Data):
 				case ob.Class == "data":
 					sig = "registered-contract-wrong-answer:" + typ + ":" + mode
 				default:
@@ -395,7 +420,7 @@ func (w *world) judge(pc *probeCall, s *scan, why string) {
 				how = "between two blocks CPCKeeper.SetCustomPrecompiledContractMeta(uncached root context, stored metadata with Disabled=true, false) (what a committed upgrade-handler write leaves behind); then the probe transaction was simulated, checked, delivered in the next block and the call repeated through EthCall; the registry scan of the committed state shows disabled=true"
 			}
 			w.violation(sig, map[string]any{"how_disabled": how, "mode": mode, "round": why, "address": pc.C.Addr.Hex(), "why_probed": pc.C.Why, "method": pc.Sel, "calldata": hex.EncodeToString(pc.Data),
-				"expected": map[string]any{"target": pc.Exp.Target, "class": pc.Exp.Class, "return_data": hex.EncodeToString(pc.Exp.Data)},
+				"expected": map[string]any{"target": exp.Target, "class": exp.Class, "return_data": hex.EncodeToString(exp.Data)},
 				"observed": ob, "all_modes": pc.Obs, "registry": s.summary()})
 		}
 	}
